@@ -1,11 +1,12 @@
 #!/bin/sh
 # usage: tools/try_patch.sh <patch.diff> <ID> [<ID>...]   (TIER=quick|thorough)
+# BASE=<commit> applies the patch to that commit of /repo instead of HEAD.
 # Applies the patch to a scratch worktree of /repo (outside /repo and /verif), runs the
 # named checks against it (T4MC_REPO), removes the worktree.  Never touches /repo's tree.
 P="$(realpath "$1")"; shift
 WT="$(mktemp -d /tmp/t4mc-wt-XXXXXX)"
 rmdir "$WT"
-git -C /repo worktree add -q "$WT" HEAD || exit 2
+git -C /repo worktree add -q "$WT" "${BASE:-HEAD}" || exit 2
 cleanup() { git -C /repo worktree remove --force "$WT" >/dev/null 2>&1; rm -rf "$WT"; }
 trap cleanup EXIT
 if ! git -C "$WT" apply "$P"; then echo "PATCH DOES NOT APPLY"; exit 3; fi
